@@ -46,8 +46,8 @@ CHECKS = {
     "C14": {
         "category": "model_checking",
         "technique": "bounded Kani harnesses on the real create_dir_all / ReadDir / File::copy with a ghost path log, a scripted getdents64 stream and symbolic copy_file_range counts in the stub kernel (postconditions over the trace); Verus contracts (unbounded) on File::copy against a ghost kernel holding source and destination bytes, on the OpenOptions flag mapping and on the Dirent record parser",
-        "text": "Bounded, partial: (a) create_dir_all for every path of 1..4 (thorough: 1..5) bytes over {a,/} — relative/absolute, single component, repeated and trailing separators — with every mkdir answer symbolic (created, EEXIST, ENOENT, any errno): Ok implies the kernel was asked to create the leaf and answered created-or-exists (so, by mkdir's contract, it and its ancestors exist), Err carries the last mkdir's errno; an existing component never makes it fail; (b) ReadDir over a symbolic well-formed getdents64 stream delivered in one or two kernel batches: each record yielded exactly once, in order, with exact NUL-terminated name and type, then end of stream; (c) File::copy for every sequence of copy_file_range answers: destination created+truncated, offsets passed by pointer, exactly the remaining bytes requested, loop ends at st_size or on 0, errors propagate; (d) Verus, unbounded: OpenOptions -> open flag word equals std's documented mapping for all option combinations; Dirent::try_from_bytes under the kernel's record contract for names of any length up to 255 (exact name bytes, NUL padded, exact type/reclen/ino/off, every unchecked access in range, layout constants proved) and DirEntry::file_unix_name (the name handed to openat/unlinkat is the record's name plus one NUL); File::copy, body verbatim, against a ghost kernel (source bytes, destination bytes) under a stated kernel contract for fstat / open / copy_file_range: for a source of any size and any sequence of short transfers, Ok implies the destination holds exactly the source's bytes whatever it held before (loop invariant dst == src[..offset]; termination of the loop included). Content equality after write/read, remove_dir_all (measured: no verdict, DESIGN §9.5) and symlink behaviour are not decided.",
-        "note": "NOT decided: content equality after write/read (kernel), remove_dir_all's effect on the tree, symlinks; File::copy is decided only relative to the trusted kernel contract of its three calls (source and destination distinct files, source unchanged during the copy); paths > 5 bytes incl. the 512-byte heap path. Kernel semantics are not modelled beyond mkdir answers and the getdents64 record format.",
+        "text": "Bounded, partial: (a) create_dir_all for every path of 1..4 (thorough: 1..5) bytes over {a,/} — relative/absolute, single component, repeated and trailing separators — with every mkdir answer symbolic (created, EEXIST, ENOENT, any errno): Ok implies the kernel was asked to create the leaf and answered created-or-exists (so, by mkdir's contract, it and its ancestors exist), Err carries the last mkdir's errno; an existing component never makes it fail; (b) ReadDir over a symbolic well-formed getdents64 stream delivered in one or two kernel batches: each record yielded exactly once, in order, with exact NUL-terminated name and type, then end of stream; (c) File::copy for every sequence of copy_file_range answers: destination created+truncated, offsets passed by pointer, exactly the remaining bytes requested, loop ends at st_size or on 0, errors propagate; (d) Verus, unbounded: OpenOptions -> open flag word equals std's documented mapping for all option combinations; Dirent::try_from_bytes under the kernel's record contract for names of any length up to 255 (exact name bytes, NUL padded, exact type/reclen/ino/off, every unchecked access in range, layout constants proved) and DirEntry::file_unix_name (the name handed to openat/unlinkat is the record's name plus one NUL); File::copy, body verbatim, against a ghost kernel (source bytes, destination bytes) under a stated kernel contract for fstat / open / copy_file_range: for a source of any size and any sequence of short transfers, Ok implies the destination holds exactly the source's bytes whatever it held before (loop invariant dst == src[..offset]; termination of the loop included); fs::write, body verbatim, same ghost kernel: Ok implies the file holds exactly the given bytes whatever it held before (write_all used by its contract proved under C15). Content equality after write/read, remove_dir_all (measured: no verdict, DESIGN §9.5) and symlink behaviour are not decided.",
+        "note": "NOT decided: content equality after read (read_to_end is outside, see C15), what the kernel does beyond the stated contracts, remove_dir_all's effect on the tree, symlinks; File::copy is decided only relative to the trusted kernel contract of its three calls (source and destination distinct files, source unchanged during the copy); paths > 5 bytes incl. the 512-byte heap path. Kernel semantics are not modelled beyond mkdir answers and the getdents64 record format.",
         "design_ref": "§4.C14",
     },
     "C13": {
